@@ -1,1 +1,25 @@
-int main(){return 0;}
+// REPLAY adapter: the REAL HttpClient::responseRequestsClose on a Response built from the verifier's input, against an independent reference
+// (split at commas, trim SP/HTAB, ASCII case-insensitive compare; close > keep-alive > HTTP/1.0 default).
+#include "iora/network/http_client.hpp"
+#include "replay_io.h"
+using namespace iora::network;
+static std::string lower(std::string s) { for (auto &c : s) if (c >= 'A' && c <= 'Z') c = (char)(c + 32); return s; }
+int main(int argc, char **argv) {
+  auto in = replay_io::load(argv[1]);
+  auto d = replay_io::bytes(in["IN"]); if (in.count("IN_N")) d.resize(std::min<size_t>(d.size(), replay_io::u64(in["IN_N"])));
+  auto v = replay_io::bytes(in["VERS"]); v.resize(3);
+  bool has = in.count("HASCONN") ? replay_io::u64(in["HASCONN"]) != 0 : true;
+  HttpClient::Response r; r.httpVersion.assign(v.begin(), v.end());
+  std::string val(d.begin(), d.end());
+  if (has) r.headers["Connection"] = val;
+  HttpClient c;
+  bool got = c.responseRequestsClose(r);
+  bool anyClose = false, anyKa = false; size_t s = 0;
+  for (size_t i = 0; i <= val.size(); i++) if (i == val.size() || val[i] == ',') {
+    size_t a = s, b = i; while (a < b && (val[a] == ' ' || val[a] == '\t')) a++; while (b > a && (val[b - 1] == ' ' || val[b - 1] == '\t')) b--;
+    std::string t = lower(val.substr(a, b - a)); if (t == "close") anyClose = true; if (t == "keep-alive") anyKa = true; s = i + 1; }
+  bool want = has && anyClose ? true : (has && anyKa ? false : r.httpVersion == "1.0");
+  if (got != want) replay_io::fail("responseRequestsClose(Connection: \"" + val + "\", HTTP/" + r.httpVersion + ") returned " + (got ? "true" : "false") + ", the token list says " + (want ? "close" : "keep"));
+  replay_io::ok("equals the reference on this header value");
+  return 0;
+}
